@@ -202,8 +202,8 @@ theorem retained_order (s : Hub) (op : HubOp) :
   | lAdd c n =>
     simp only [hubStep]; split
     · split
+      · exact same _ rfl
       · exact app _ [.lAdd n] (by simp)
-      · exact app _ [.lAdd n, .lAdd n] (by simp)
     · exact same _ rfl
   | lRemove c n =>
     simp only [hubStep]; split
@@ -250,17 +250,11 @@ theorem step_listenerInv (s : Hub) (op : HubOp) (h : ListenerInv s) : ListenerIn
   | lAdd c n =>
     simp only [hubStep]; split
     · split
-      · rename_i hc
-        intro k hk
-        simp only [retain_retained, List.mem_append, List.mem_singleton, Ev.lAdd.injEq] at hk
-        rcases hk with hk | rfl
-        · exact h k hk
-        · simpa using hc
+      · exact h
       · intro k hk
         simp only [broadcast_retained, retain_retained, List.mem_append, List.mem_singleton, Ev.lAdd.injEq, broadcast_listeners, retain_listeners] at hk ⊢
-        rcases hk with (hk | rfl) | rfl
+        rcases hk with hk | rfl
         · left; exact h k hk
-        · right; rfl
         · right; rfl
     · exact h
   | lRemove c n =>
@@ -357,13 +351,11 @@ theorem step_sameBut {d : Nat} {s t : Hub} (h : SameBut d s t) (op : HubOp) : Sa
   | lAdd c n =>
     simp only [hubStep, h.stateOf c]
     split
-    · have h1 := h.retain (.lAdd n)
-      simp only [retain_listeners, h.listeners]
+    · simp only [h.listeners]
       by_cases hc : s.listeners.contains n = true
-      · simp only [hc, ↓reduceIte]; exact h1
+      · simp only [hc, ↓reduceIte]; exact h
       · simp only [hc, ↓reduceIte]
-        have h2 := sameBut_with_listeners h1 (· ++ [n])
-        simp only [retain_listeners] at h2
+        have h2 := sameBut_with_listeners h (· ++ [n])
         rw [h.listeners] at h2
         exact (h2.retain _).broadcast _ _
     · exact h
